@@ -5,7 +5,7 @@ from checklib import Scenario
 RULE = ("arbitrary byte strings as file content (uniform bytes, structural-character-heavy, mutated conventional files, NUL and "
         "8-bit bytes, no trailing newline, very long lines) x 7 delimiter sets (+ exotic ones) x 3 comment sets (+ a blank) x "
         "{default, JOIN_SAME_ENTRIES, PYTHON_STYLE}; after a successful read: every listing, every typed and extended getter "
-        "on every listed key, merge with a second random file in both roles, write and read back; run under ASan+UBSan with a "
+        "on every listed key, merge with a second random file in both roles, write and read back; run under ASan+UBSan and once more under clang MemorySanitizer with a "
         "per-run timeout; the return code must be success or one of the four parse codes (theorem), every sanitizer report, "
         "crash or timeout is a failing input; values are additionally compared with the model (fidelity); distinct by bytes")
 
@@ -18,6 +18,8 @@ def rfile(rng):
     if r < 0.9: return gens.mutate_conventional(rng)
     if r < 0.95: return bytes(rng.choice(b"a=# [\"]") for _ in range(rng.randrange(8000, 20000))) + b"\n"
     return (b"k=" + b"v" * rng.randrange(8180, 8200) + b"\n #c\n") * 2
+
+EXTRA_FLAVOURS = ["msan"]     # clang MemorySanitizer build of the same driver: reads of uninitialised memory
 
 def gen(rng, tier):
     n = 2100 if tier == "quick" else 100000
